@@ -16,6 +16,9 @@
 //	   transitivity of <= and congruence of == (a==b => cmp(a,c)==cmp(b,c)).
 //	P4 published order: for the subset of S2 the reference comparator (refver.go) recognises as
 //	   canonical, all pairs must agree in sign with the reference.
+//	P5 history independence: Parse/CompareStr are pure functions — see hist.go. Every cell of two
+//	   shared probe matrices is evaluated for each name in a fresh process and again in this process
+//	   after P1..P4 and after all other ecosystems have handled the same strings; outcomes must match.
 //
 // DON'T-CARE CELLS (the model accepts every behaviour):
 //   - whether a string outside the ecosystem grammar is accepted or rejected by Parse;
@@ -727,9 +730,12 @@ func (x *ctx) orderChecks(g *group, name string, primary bool, st map[string]any
 	}
 }
 
-const rule = "for every ecosystem name: Parse/CompareStr never panic and cmp(s,s)=0 for all strings over the raw alphabet (len<=4/5) and token alphabet (<=3/4 tokens); cmp(a,b)=-cmp(b,a) for all ordered pairs of accepted token strings (<=2 tokens + all 3-token strings over a core alphabet); on generated grammar-valid versions every pair is comparable, <= is transitive and == is a congruence over all triples; canonical versions agree in sign with independent reference comparators written from the published rules"
+const rule = "for every ecosystem name: Parse/CompareStr never panic and cmp(s,s)=0 for all strings over the raw alphabet (len<=4/5) and token alphabet (<=3/4 tokens); cmp(a,b)=-cmp(b,a) for all ordered pairs of accepted token strings (<=2 tokens + all 3-token strings over a core alphabet); on generated grammar-valid versions every pair is comparable, <= is transitive and == is a congruence over all triples; canonical versions agree in sign with independent reference comparators written from the published rules; every cell of a shared probe matrix (versions with 1..5 numeric components and typical suffixes) has the same outcome in a fresh process touching only that ecosystem and in the main process after all other ecosystems handled the same strings"
 
 func main() {
+	if n := os.Getenv("VERIF_C07_PROBE"); n != "" {
+		os.Exit(probeChild(n)) // P5: fresh-process probe for one ecosystem name, see hist.go
+	}
 	if f := os.Getenv("VERIF_REPLAY"); f != "" {
 		os.Exit(replay(f))
 	}
@@ -757,6 +763,12 @@ func main() {
 			runEcosystem(x, g, name, false, stats)
 			names++
 		}
+	}
+	// P5 history independence, after everything else has left whatever state it leaves
+	if r.Expired() {
+		r.Cap("deadline before P5 (history independence)")
+	} else {
+		x.part5(stats)
 	}
 	// an unknown ecosystem must be an error, not a panic
 	if v, err, p, _ := parse("no-such-ecosystem", "1.0"); p != nil || err == nil || v != nil {
@@ -846,12 +858,14 @@ func replay(file string) int {
 		}
 		return c
 	}
-	need := map[string]int{"self": 1, "pair": 2, "pub": 2, "trans": 3, "congr": 3}[kind]
+	need := map[string]int{"self": 1, "pair": 2, "pub": 2, "trans": 3, "congr": 3, "hist": 2}[kind]
 	if need == 0 || len(s) < need {
 		fmt.Fprintln(os.Stderr, "malformed replay")
 		return 3
 	}
 	switch kind {
+	case "hist":
+		bad = replayHist(name, s[0], s[1])
 	case "self":
 		if name == "no-such-ecosystem" {
 			v, err, p, _ := parse(name, s[0])
